@@ -11,41 +11,83 @@ Definition version_order (V : Type) (veqb leb : V -> V -> bool) : Prop :=
   (forall a b, leb a b = true \/ leb b a = true) /\
   (forall a b c, leb a b = true -> leb b c = true -> leb a c = true).
 
-(* simplify_specifiers before the repair (sort key = printed form, >=v,<=v collapsed to ==v although a
+(* The model has two switches (Misc/Versions.v), one per repair of simplify_specifiers; the check probes the tree
+   under test and runs the correspondence with the matching pair:
+     fixed - sort key compares versions and >=v,<=v,!=v raises   (false: as first written; true: commit 3ca56c7)
+     eqv   - two == specifiers are compared by version           (false: as Specifier objects, i.e. by the spelling
+             of the version; true: the repair of finding C17-simplify-eq-string-identity)
+   fully repaired code = (true, true). *)
+
+(* simplify_specifiers before the first repair (sort key = printed form, >=v,<=v collapsed to ==v although a
    != v is present) changes the set of accepted versions: >=10,>=9 becomes >=9 and >=1,<=1,!=1 becomes ==1 *)
-Theorem C17_simplify_refuted :
-  not_equiv false [(OGe, STR "10"); (OGe, STR "9")] /\ not_equiv false [(OGe, STR "1"); (OLe, STR "1"); (ONe, STR "1")].
-Proof. exact (conj simplify_refuted_key simplify_refuted_ne). Qed.
+Theorem C17_simplify_refuted : forall eqv,
+  not_equiv false eqv [(OGe, STR "10"); (OGe, STR "9")] /\
+  not_equiv false eqv [(OGe, STR "1"); (OLe, STR "1"); (ONe, STR "1")].
+Proof. intros eqv. exact (conj (simplify_refuted_key eqv) (simplify_refuted_ne eqv)). Qed.
 Print Assumptions C17_simplify_refuted.
 
-(* the repaired simplify_specifiers (fixed = true, the current /repo) accepts exactly the versions the
-   given specifier set accepts - every version order, every specifier list, every iteration order *)
+(* with the repaired key (fixed = true) an accepted set is reported as a set that accepts exactly the same versions -
+   every version order, every specifier list, every iteration order, either way of comparing == specifiers *)
 Theorem C17_simplify_equiv : forall V veqb leb kleb, version_order V veqb leb ->
-  forall ss ss', simplify V veqb leb kleb true ss = Ok ss' -> forall x, sat V leb x ss' = sat V leb x ss.
+  forall eqv ss ss', simplify V veqb leb kleb true eqv ss = Ok ss' -> forall x, sat V leb x ss' = sat V leb x ss.
 Proof. intros V veqb leb kleb (H1 & H2 & H3). exact (simplify_equiv V veqb leb kleb H1 H2 H3). Qed.
 Print Assumptions C17_simplify_equiv.
 
-(* a rejected set has no member (both variants), provided == versions that denote the same version are
-   spelled the same *)
+(* REPAIRED comparison of == specifiers (eqv = true): a rejected set has no member. No guard on spellings, every
+   version order, both variants of the key. *)
+Theorem C17_simplify_rejects_repaired : forall V veqb leb kleb, version_order V veqb leb ->
+  forall fixed ss, simplify V veqb leb kleb fixed true ss = Err -> forall x, sat V leb x ss = false.
+Proof. intros V veqb leb kleb (H1 & H2 & H3). exact (simplify_rejects_repaired V veqb leb kleb H1 H2 H3). Qed.
+Print Assumptions C17_simplify_rejects_repaired.
+
+(* the two together, for the fully repaired code: a specifier set that some version satisfies is accepted, and the
+   result accepts exactly the versions the given set accepts.  (The converse - every unsatisfiable set is rejected -
+   is not claimed and does not hold: see C17_accepts_unsat_ex; such a set is returned as an equivalent, equally
+   unsatisfiable one.) *)
+Theorem C17_simplify_accepts_repaired : forall V veqb leb kleb, version_order V veqb leb ->
+  forall ss x, sat V leb x ss = true ->
+  exists ss', simplify V veqb leb kleb true true ss = Ok ss' /\ forall y, sat V leb y ss' = sat V leb y ss.
+Proof. intros V veqb leb kleb (H1 & H2 & H3). exact (simplify_accepts_repaired V veqb leb kleb H1 H2 H3). Qed.
+Print Assumptions C17_simplify_accepts_repaired.
+
+(* which == text is reported (all four variants): the first == specifier in iteration order, alone *)
+Theorem C17_simplify_keeps_first_eq : forall V veqb leb kleb fixed eqv ss ss' e,
+  simplify V veqb leb kleb fixed eqv ss = Ok ss' -> first_eq V ss = Some e -> ss' = [e].
+Proof. exact simplify_keeps_first_eq. Qed.
+Print Assumptions C17_simplify_keeps_first_eq.
+
+(* UNREPAIRED comparison (any eqv, so in particular eqv = false): a rejected set has no member provided == versions
+   that denote the same version are spelled the same *)
 Theorem C17_simplify_rejects : forall V veqb leb kleb, version_order V veqb leb ->
-  forall fixed ss, canon V leb ss -> simplify V veqb leb kleb fixed ss = Err -> forall x, sat V leb x ss = false.
+  forall fixed eqv ss, canon V leb ss -> simplify V veqb leb kleb fixed eqv ss = Err -> forall x, sat V leb x ss = false.
 Proof. intros V veqb leb kleb (H1 & H2 & H3). exact (simplify_rejects V veqb leb kleb H1 H2 H3). Qed.
 Print Assumptions C17_simplify_rejects.
 
-(* ... and without that guard it does: ==1,==1.0 is rejected although 1 satisfies it *)
+(* ... and without that guard it does (regression witness for the unrepaired comparison, eqv = false):
+   ==1,==1.0 is rejected although 1 satisfies it *)
 Theorem C17_simplify_rejects_spelling_refuted : forall fixed,
-  exists ss x, simplify_str fixed ss = Err /\ sat_str x ss = true.
+  exists ss x, simplify_str fixed false ss = Err /\ sat_str x ss = true.
 Proof. exact rejects_refuted_spelling. Qed.
 Print Assumptions C17_simplify_rejects_spelling_refuted.
 
-(* the same two statements for the executable instance the correspondence runs against /repo *)
-Theorem C17_simplify_str_equiv : forall ss ss',
-  simplify_str true ss = Ok ss' -> forall x, sat_str x ss' = sat_str x ss.
+(* the same statements for the executable instance the correspondence runs against the tree under test *)
+Theorem C17_simplify_str_equiv : forall eqv ss ss',
+  simplify_str true eqv ss = Ok ss' -> forall x, sat_str x ss' = sat_str x ss.
 Proof. exact simplify_str_equiv. Qed.
 Print Assumptions C17_simplify_str_equiv.
 
-Theorem C17_simplify_str_rejects : forall fixed ss,
-  canon str sv_leb ss -> simplify_str fixed ss = Err -> forall x, sat_str x ss = false.
+Theorem C17_simplify_str_rejects_repaired : forall fixed ss,
+  simplify_str fixed true ss = Err -> forall x, sat_str x ss = false.
+Proof. exact simplify_str_rejects_repaired. Qed.
+Print Assumptions C17_simplify_str_rejects_repaired.
+
+Theorem C17_simplify_str_accepts_repaired : forall ss x, sat_str x ss = true ->
+  exists ss', simplify_str true true ss = Ok ss' /\ forall y, sat_str y ss' = sat_str y ss.
+Proof. exact simplify_str_accepts_repaired. Qed.
+Print Assumptions C17_simplify_str_accepts_repaired.
+
+Theorem C17_simplify_str_rejects : forall fixed eqv ss,
+  canon str sv_leb ss -> simplify_str fixed eqv ss = Err -> forall x, sat_str x ss = false.
 Proof. exact simplify_str_rejects. Qed.
 Print Assumptions C17_simplify_str_rejects.
 
@@ -67,13 +109,13 @@ Print Assumptions C17_merge.
 
 (* Requirement.split: the written entries accept what the requirement accepts; single=True gives one entry *)
 Theorem C17_split_equiv : forall V veqb leb kleb, version_order V veqb leb ->
-  forall single r l, req_split V veqb leb kleb true single r = Ok l ->
+  forall eqv single r l, req_split V veqb leb kleb true eqv single r = Ok l ->
   forall x, simple_sat V leb x l = sat V leb x (snd r).
 Proof. intros V veqb leb kleb (H1 & H2 & H3). exact (req_split_equiv V veqb leb kleb H1 H2 H3). Qed.
 Print Assumptions C17_split_equiv.
 
-Theorem C17_single : forall V veqb leb kleb fixed r l,
-  req_split V veqb leb kleb fixed true r = Ok l -> List.length l = 1%nat.
+Theorem C17_single : forall V veqb leb kleb fixed eqv r l,
+  req_split V veqb leb kleb fixed eqv true r = Ok l -> List.length l = 1%nat.
 Proof. exact req_split_single. Qed.
 Print Assumptions C17_single.
 
@@ -221,10 +263,35 @@ Example C17_order_inhabited : version_order str str_eqb sv_leb.
 Proof. exact (conj str_eqb_eq (conj sv_leb_total sv_leb_trans)). Qed.
 
 Example C17_simplify_ex :
-  simplify_str true [(OGe, STR "1.9"); (OGe, STR "1.10"); (OLt, STR "2.0"); (ONe, STR "3"); (ONe, STR "1.11")]
+  simplify_str true true [(OGe, STR "1.9"); (OGe, STR "1.10"); (OLt, STR "2.0"); (ONe, STR "3"); (ONe, STR "1.11")]
   = Ok [(OGe, STR "1.10"); (OLt, STR "2.0"); (ONe, STR "1.11")].
 Proof. vm_compute. reflexivity. Qed.
 
-Example C17_rejects_ex : simplify_str true [(OGe, STR "1"); (OLe, STR "1"); (ONe, STR "1")] = Err
-  /\ simplify_str true [(OGe, STR "2"); (OLt, STR "2.0")] = Err.
-Proof. split; vm_compute; reflexivity. Qed.
+Example C17_rejects_ex : forall eqv, simplify_str true eqv [(OGe, STR "1"); (OLe, STR "1"); (ONe, STR "1")] = Err
+  /\ simplify_str true eqv [(OGe, STR "2"); (OLt, STR "2.0")] = Err.
+Proof. intros []; split; vm_compute; reflexivity. Qed.
+
+(* the repaired comparison of == specifiers: two spellings of one version are accepted and the FIRST one in
+   iteration order is reported (either order); next to bounds; with a third spelling; different versions are still
+   rejected, also when a second spelling of the first comes in between; the unrepaired comparison rejects the first *)
+Example C17_eq_spelling_ex :
+  simplify_str true true [(OEq, STR "1"); (OEq, STR "1.0")] = Ok [(OEq, STR "1")] /\
+  simplify_str true true [(OEq, STR "1.0"); (OEq, STR "1")] = Ok [(OEq, STR "1.0")] /\
+  sat_str (STR "1") [(OEq, STR "1"); (OEq, STR "1.0")] = true /\
+  simplify_str true true [(OEq, STR "1.0"); (OGe, STR "1")] = Ok [(OEq, STR "1.0")] /\
+  simplify_str true true [(OGe, STR "1"); (OEq, STR "1.0"); (OEq, STR "1.0.0"); (OLe, STR "1"); (OEq, STR "1")]
+    = Ok [(OEq, STR "1.0")] /\
+  simplify_str true true [(OEq, STR "1"); (OEq, STR "2")] = Err /\
+  simplify_str true true [(OEq, STR "1"); (OEq, STR "1.0"); (OEq, STR "2")] = Err /\
+  simplify_str true true [(OEq, STR "1"); (OEq, STR "1.0"); (ONe, STR "1.0.0")] = Err /\
+  simplify_str true false [(OEq, STR "1"); (OEq, STR "1.0")] = Err /\
+  first_eq str [(OGe, STR "1"); (OEq, STR "1.0"); (OEq, STR "1")] = Some (OEq, STR "1.0").
+Proof. repeat split; vm_compute; reflexivity. Qed.
+
+(* what is NOT claimed: an unsatisfiable set can be accepted (the collapse >=v,<=v compares spellings) - it is then
+   returned unchanged, hence equivalent *)
+Example C17_accepts_unsat_ex :
+  simplify_str true true [(OGe, STR "1"); (OLe, STR "1.0"); (ONe, STR "1")]
+    = Ok [(OGe, STR "1"); (OLe, STR "1.0"); (ONe, STR "1")] /\
+  sat_str (STR "1") [(OGe, STR "1"); (OLe, STR "1.0"); (ONe, STR "1")] = false.
+Proof. exact accepts_unsatisfiable_witness. Qed.
